@@ -168,6 +168,8 @@ pub enum Fault {
     /// a BGZF file (BCF or VCF inside) that ends inside the compressed payload of a block, as an
     /// interrupted copy leaves it
     TruncatedBgzfBlock,
+    /// an empty line between two VCF records (or before the first, or after the last one)
+    EmptyLine,
 }
 
 #[derive(Clone, Debug, Serialize, Deserialize)]
@@ -183,7 +185,7 @@ fn sweep_strategy() -> impl Strategy<Value = SweepCase> {
     (
         base_strategy(8),
         container_strategy(),
-        prop_oneof![2 => Just(Fault::Ploidy), 1 => Just(Fault::TruncatedColumns), 1 => Just(Fault::BadPos), 1 => Just(Fault::BadGt), 1 => Just(Fault::TruncatedBcf), 1 => Just(Fault::TruncatedBgzfBcf), 1 => Just(Fault::TruncatedVcfLine), 2 => Just(Fault::TruncatedBgzfBlock)],
+        prop_oneof![2 => Just(Fault::Ploidy), 1 => Just(Fault::TruncatedColumns), 1 => Just(Fault::BadPos), 1 => Just(Fault::BadGt), 1 => Just(Fault::TruncatedBcf), 1 => Just(Fault::TruncatedBgzfBcf), 1 => Just(Fault::TruncatedVcfLine), 2 => Just(Fault::TruncatedBgzfBlock), 1 => Just(Fault::EmptyLine)],
         prop::bool::weighted(0.5),
     )
         .prop_map(|((cs, map), container, fault, strict)| SweepCase {
@@ -241,6 +243,13 @@ fn eval_sweep(ctx: &Ctx, case: &SweepCase) -> Verdict {
         let (run, argv, faulty_site) = match case.fault {
             Fault::Ploidy => {
                 template.gts[selected_sample] = Gt { alleles: vec![Some(0)], phased: vec![] };
+                // at every other position another selected sample of the same record is missing, in an
+                // earlier or a later column: the record is then both "skippable" and faulty, and faulty wins
+                if at % 2 == 1 {
+                    if let Some((other, _)) = case.map.entries.iter().find(|(s, _)| *s != selected_sample) {
+                        template.gts[*other] = Gt::diploid(None, None, false);
+                    }
+                }
                 let mut records = case.cs.records.clone();
                 // shift later records of the same contig so that positions stay strictly increasing
                 for r in records.iter_mut().skip(at) {
@@ -334,11 +343,12 @@ fn eval_sweep(ctx: &Ctx, case: &SweepCase) -> Verdict {
                 let (run, argv) = run_create_bytes(ctx, &dir, "c10s", &case.cs, &bytes, ext, &opts, Transport::Path);
                 (run, argv, earlier_skip(case, at))
             }
-            Fault::TruncatedColumns | Fault::BadPos | Fault::BadGt => {
+            Fault::TruncatedColumns | Fault::BadPos | Fault::BadGt | Fault::EmptyLine => {
                 let mut lines: Vec<String> = case.cs.records.iter().map(|r| r.vcf_line(&case.cs)).collect();
                 let good = template.vcf_line(&case.cs);
                 let bad = match case.fault {
                     Fault::TruncatedColumns => good.split('\t').take(6).collect::<Vec<_>>().join("\t"),
+                    Fault::EmptyLine => String::new(),
                     Fault::BadPos => {
                         let mut cols: Vec<&str> = good.split('\t').collect();
                         cols[1] = "12x";
@@ -425,7 +435,7 @@ pub fn check(ctx: &Ctx) -> Check {
         }),
         Box::new(RandomPart {
             name: "fault-sweep",
-            rule: "a fault (non-diploid genotype in a selected sample in any container; VCF line with truncated columns, non-numeric POS, GT `0/x`; a raw or BGZF-compressed BCF stream ending inside the record; VCF text ending inside the record line; a BGZF file, BCF or VCF inside, ending inside the compressed payload of a first, middle or last block, read with one thread or the default four) placed at EVERY record position 0..=N of generated call sets with skippable and countable records before and after, with and without --strict: exit != 0, diagnostic, empty stdout; ploidy faults must name contig and position of the first failing record; under --strict (half of the cases) a skippable record before the fault must be the one named, whatever kind of fault follows it; non-trivial = a fault at a position > 0",
+            rule: "a fault (non-diploid genotype in a selected sample in any container; VCF line with truncated columns, non-numeric POS, GT `0/x`, or no content at all; a raw or BGZF-compressed BCF stream ending inside the record; VCF text ending inside the record line; a BGZF file, BCF or VCF inside, ending inside the compressed payload of a first, middle or last block, read with one thread or the default four) placed at EVERY record position 0..=N (for ploidy faults at every other position together with a missing genotype in another selected sample of the same record) of generated call sets with skippable and countable records before and after, with and without --strict: exit != 0, diagnostic, empty stdout; ploidy faults must name contig and position of the first failing record; under --strict (half of the cases) a skippable record before the fault must be the one named, whatever kind of fault follows it; non-trivial = a fault at a position > 0",
             cases: ctx.tier.pick(800, 20_000),
             strategy: Box::new(|| sweep_strategy().boxed()),
             eval: Box::new(eval_sweep),
